@@ -125,7 +125,7 @@ Step ==
        ELSE LET r == Rec[l]
                 voc == IF r.ev = "New" THEN Rec[ini].cfgs[r.c + 1] ELSE <<>>
             IN /\ ENext(r, voc)
-               /\ (Exact(r) \/ (IOEnv.EXPLAIN = "1" /\ Explain(r) /\ FALSE))
+               /\ (IF Exact(r) THEN TRUE ELSE (IOEnv.EXPLAIN = "1" /\ Explain(r) /\ FALSE))
                /\ Remember(r)
     /\ UNCHANGED <<ini, gx>>
 
